@@ -454,7 +454,9 @@ def classify(case, f, idx, default):
     up = f["mnemonic"].upper()
     arity = len(f["codes"])
     collide_model = arity in idx.get(up, ())
-    collide_file = any(g is not f and g["mnemonic"].upper() == up and len(g["codes"]) == arity for g in case["forms"])
+    # inside one file the recorded mechanism needs the lost form to be filed under the key the look-up uses, i.e. to be written in
+    # upper case (a new form is filed under its mnemonic as written, looked up under the upper-case one)
+    collide_file = f["mnemonic"] == up and any(g is not f and g["mnemonic"].upper() == up and len(g["codes"]) == arity for g in case["forms"])
     # the collision mechanism has precise preconditions and is judged first: a TP/LT-containing mnemonic that collides with an
     # existing mnemonic/arity is lost for that reason, whatever its name
     if case["isa"] == "x86" and (collide_model or collide_file) and default in ("missing-form", "throughput-snap", "latency-snap", "operand-decode"):
